@@ -502,6 +502,7 @@ var c04Models = map[string]modelFn{
 	"MaterializeDematerialize": mIdentity,
 	"ContextWithValue":         mIdentity,
 	"ContextMap":               mIdentity,
+	"CtxTimeoutProbe":          mIdentity,
 	// ---------------------------------------------------------------- combining
 	"StartWith": func(p []int, in []N, aux [][]N) [][]N {
 		return mOne(append(mVals(71, 72), in...))
